@@ -272,6 +272,7 @@ func scenario(c *run.Ctx, idx int) {
 	}
 	kinds := map[string]bool{}
 	discards := 0
+	incomeSeq := 0
 	for bi := 0; bi < nBlocks; bi++ {
 		t := cl.NextTime()
 		var cands []scn.Cand
@@ -284,6 +285,20 @@ func scenario(c *run.Ctx, idx int) {
 			cands = nil // votes changing inside the snapshot block is C10's known finding; keep it out of C01
 		default:
 			cands = cl.G.Next(t, cl.Head.Height()+1, r.Range(3, 12))
+			// deputies change the income address of their candidate profile (their accounts are funded in the third block):
+			// who is paid the fees of a block depends on the state at its parent, never on what a node executed or cached before
+			if bi == 2 {
+				for i, d := range cl.W.Deputies {
+					cands = append(cands, cl.G.C(cl.G.B.Transfer(cl.W.Founder, d.Addr, fx.LEMO(5000), uint64(t)+1500+uint64(i)), "fund-deputy", "ok"))
+				}
+			} else if r.Chance(1, 3) {
+				d := cl.W.Deputies[r.Intn(len(cl.W.Deputies))]
+				incomeSeq++
+				inc := fx.NewKey(fmt.Sprintf("deputy-income-%d", idx), incomeSeq).Addr
+				cl.G.U.Addr(inc)
+				cands = append(cands, cl.G.C(cl.G.B.Register(d, fx.Profile(d, inc, true, "income moved"), big.NewInt(0), uint64(t)+1400+uint64(incomeSeq)), "deputy-income-update", "any"))
+				c.Stat("deputy_income_updates_offered", 1)
+			}
 		}
 		// every fourth block the miners choose a small block gas limit, so that candidates (and sub-txs of boxes) run into it
 		lim := uint64(0)
